@@ -39,6 +39,11 @@ def rand_value(rng, fmt):
     if fmt == "x":
         # a decimal with five fractional digits, either sign
         return rng.choice([1, -1]) * rng.randint(0, 10 ** 10) / 100000
+    if len(fmt) > 1:
+        # multi-element formats are tuples
+        n = int(fmt[0]) if fmt[0].isdigit() else None
+        letters = fmt[1] * n if n else fmt
+        return tuple(rand_value(rng, ch) for ch in letters)
     size = struct.calcsize(fmt)
     v = rng.getrandbits(8 * size)
     if fmt.islower() and v >> (8 * size - 1):
@@ -49,6 +54,8 @@ def rand_value(rng, fmt):
 def same(fmt, a, b):
     if fmt == "x":
         return round(a * 100000) == round(b * 100000)
+    if len(fmt) > 1:
+        return tuple(a) == tuple(b)
     return a == b
 
 
@@ -152,6 +159,28 @@ def exchange(rng, res, devs, desc):
             if not rows_equal(devs, names, got, back):
                 res.violation("unexplained:parent-sees-other-values",
                               f"child wrote {back}, parent read {got}",
+                              case=desc)
+                return False
+            # the parent writes the very same values again: the child's
+            # write in between must not make this write a no-op
+            for d, ns, row in zip(devs, names, vals):
+                for n, v in zip(ns, row):
+                    setattr(d, n, v)
+            parent.send(("read",))
+            if not parent.poll(60):
+                res.inconc("child did not answer")
+                return False
+            msg = parent.recv()
+            if msg[0] == "error":
+                res.violation("unexplained:child-error", msg[1], case=desc,
+                              witness=msg[2])
+                return False
+            res.count("rewrites_of_the_same_value",
+                      sum(len(r) for r in vals))
+            if not rows_equal(devs, names, msg[1], vals):
+                res.violation("unexplained:rewrite-of-same-value-lost",
+                              f"parent wrote {vals} again after the child "
+                              f"had written {back}; child reads {msg[1]}",
                               case=desc)
                 return False
         if len(res.samples) < 2:
